@@ -293,7 +293,11 @@ Definition engine_delete (R : N) (kind : dkind) (x : rec) (d : dst) : dst :=
             if memb x V then mkD (del_slot x V) W (d_lf d) rest false (mkStep kind x OOk safe :: d_trace d)
             else mkD V W (d_lf d) rest false (mkStep kind x OFailCond safe :: d_trace d)
         end
-    | OFailCond => mkD V W (d_lf d) rest false (mkStep kind x OFailCond safe :: d_trace d)
+    | OFailCond =>
+        (* a failed compare: only the index compare-and-delete may go on with the key; a version that could not
+           be deleted marks its key as failed whatever the error *)
+        mkD V W (match kind with KDel => rkey x | KDelCur => d_lf d end) rest false
+            (mkStep kind x OFailCond safe :: d_trace d)
     | OFailOther => mkD V W (rkey x) rest false (mkStep kind x OFailOther safe :: d_trace d)
     | ODie => mkD V W (d_lf d) rest true (mkStep kind x ODie safe :: d_trace d)
     end.
